@@ -126,10 +126,9 @@ ALL_UNITS = ['value_arith', 'value_cmp', 'value_coll', 'macros', 'preresolved', 
 PROPS = {
     'C02': dict(
         units=['parser', 'parser_expr', 'parser_unary', 'parser_member', 'parser_matchx', 'tokenizer', 'interp_vm_g1', 'interp_vm_g2', 'interp_vm_g3', 'interp_vm_g4'],
-        level_text='Each binary precedence level of the real recursive-descent parser (||, &&, the relations incl. in, + -, * / %) is proved, for every token sequence, to produce exactly the tree the CEL grammar defines for that level: one next-tighter operand followed by a LEFT fold over (operator operand)*, with exactly the operator set of the level; the VM arm contracts fix the operand order (lhs pushed first, popped second). A failed obligation is reported as the violation.',
-        not_covered=['?: / match (parse_expression, parse_turnary_expression), unary ! and - runs, postfix member/index/call chains, parentheses (parse_unary and below are known by contract only: sp_unary is uninterpreted)',
-                     'whitespace independence (tokenizer not under contract)'],
         assumptions=['the Tokenizer trait is modelled by a ghost token sequence and a cursor (peek does not move, next advances by one)', 'the label counter does not overflow (2^32 labels)'],
+        level_text="Every grammar level that has a parse function is proved, for every token sequence, to produce exactly the tree the CEL grammar defines: ?: loosest with a right-nesting else branch, ||, &&, the relations incl. in, + -, * / % (one next-tighter operand followed by a LEFT fold over (operator operand)*, exactly the operator set of the level), runs of ! / - applying to one member expression, postfix .name / (args) / [index] applied left to right, parentheses = the enclosed expression, match = scrutinee { case pattern: expr, ... }; the tokenizer's operator table, keyword table and whitespace skipping; the VM arm contracts fix the operand order. A failed obligation is reported as the violation.",
+        not_covered=['that StringTokenizer as a whole refines the ghost token-stream model of the Tokenizer trait (peek does not move, next advances by one, location() = end of the last scanned token): assumed, so whitespace independence is proved only per token (leading whitespace is skipped and is not part of the token)', 'map literals and f-strings (those arms of parse_primary are dropped)', "each unit knows the next lower grammar level by contract only; parse_primary's and parse_match_pattern's results are additionally assumed to be functions of the tokens"],
     ),
     'C13': dict(
         units=['tokenizer', 'parser_unary'],
@@ -141,21 +140,21 @@ PROPS = {
     ),
     'C17': dict(
         units=['parser', 'compprog', 'parser_expr', 'parser_unary', 'parser_member', 'parser_matchx'],
-        level_text='PARTIAL: for the five binary precedence levels the reported identifier set of a node is proved to be exactly the union of its operands\' sets (nothing dropped, nothing invented). Identifier primaries, calls, macros, f-strings, ternary and match (where the pinned tree drops names, F13) are NOT under contract, nor is filter_from_bindings.',
-        not_covered=['parse_primary (add_ident), parse_member (call handling, check_for_const), f-strings, ternary, match: not under contract', 'filter_from_bindings / IdentFilterIter'],
         assumptions=['ProgramDetails::union_from is set union (HashSet, std)'],
+        level_text="The identifier set of every node built under contract is proved to be exactly the union of its children's sets plus, for an identifier primary, its own name: add_ident, the compile! sites of the binary levels, append_result / consume_child / from_children*, the ternary (all three operands), match (scrutinee, every pattern, every arm), index expressions, list literals, calls (receiver and every argument) and check_for_const (keeps the set).",
+        not_covered=['filter_from_bindings / IdentFilterIter', 'f-string and map-literal arms of parse_primary (dropped arms)', 'variables bound by macros (v in [1].map(v, ..)) are reported as parameters: a superset, allowed by the statement'],
     ),
     'C18': dict(
         units=['parser', 'parser_expr', 'parser_unary', 'parser_member', 'parser_matchx', 'scanner', 'tokenizer'],
-        level_text='PARTIAL: for the five binary precedence levels the span of a node is proved to be exactly the hull of its first operand\'s span and its last operand\'s span (so children are contained in parents). Token spans, primaries, unary/postfix nodes, line/column tracking and syntax-error locations are NOT under contract.',
-        not_covered=['token spans and line/column tracking (string_scanner / string_tokenizer)', 'primaries, unary, member nodes, ternary, match', 'syntax error locations', 're-compiling the spanned text'],
         assumptions=['SourceRange::surrounding is the hull (min of starts, max of ends; derive(Ord) on SourceLocation)'],
+        level_text="The span of every node built under contract is proved to be exactly the hull of its operands' / delimiters' spans (binary levels, ternary, unary runs, postfix chain, call, index, parentheses, list literal, match, literals and identifiers = the token span); SourceRange::surrounding is proved to be the smallest containing span (lemmas); a token's span runs from the scanner position after the leading whitespace to the position after its last character; line / column bookkeeping counts characters and resets on newline; tokenizer syntax errors carry the scanner position.",
+        not_covered=['re-compiling the spanned text yields the same subtree; sibling disjointness (not stated as lemmas)', "syntax-error locations produced by the parser (only the tokenizer's are under contract)", 'match pattern spans (excluded by the property)', 'that StringTokenizer refines the ghost Tokenizer model'],
     ),
     'C09': dict(
         units=['parser', 'compprog', 'parser_expr', 'parser_unary', 'parser_member', 'interp_vm_g1', 'interp_vm_g2', 'interp_vm_g3', 'interp_vm_g4', 'interp_vm_g6', 'interp_vm_g7'],
-        level_text='PARTIAL: at every binary fold site of the compiler (compile! in the five binary levels) the value computed at compile time is proved to be op(lhs, rhs) for the same operator whose instruction is emitted otherwise, and the VM arm for that instruction is proved to push op(lhs, rhs) with the same operand order; the VM builds map literals with last-entry-wins and reads a map field before a method. The ternary fold, container folding in parse_primary, check_for_const (calls, now()) are NOT under contract.',
-        not_covered=['ternary condition folding (F9), list/map literal folding, member access folding, check_for_const incl. now()/timestamp() (F14) and unbound variables in folded macro bodies'],
         assumptions=['operators are functions of their operands (op2 uninterpreted; purity by Rust typing)'],
+        level_text="At every fold site under contract the value computed at compile time is proved to be the one the emitted instruction computes: binary levels (op2(op, lhs, rhs) for the same op), ternary (same truthiness; a failed constant condition is the result), index, field access (only on map / object constants, only when the access succeeds), list literals and from_children* (fold iff all children constant), calls (check_for_const: replaced by a constant exactly when running the call's OWN code with the compile-time bindings succeeds); the VM arms for the same instructions (operand order, MkDict last-entry-wins, field before method).",
+        not_covered=['now() / zero-argument timestamp() frozen when part of a call chain (F14, unrepaired): which functions the compile-time bindings contain is not decided by any contract', 'the map-literal resolver closure (dropped arm)', 'unbound variables inside folded macro bodies'],
     ),
     'C01': dict(
         units=ALL_UNITS, safety_only=True,
@@ -201,15 +200,13 @@ PROPS = {
     ),
     'C10': dict(
         units=['preresolved', 'interp', 'interp_vm_g0', 'compprog', 'parser_expr', 'parser_unary', 'parser_match', 'parser_member', 'parser_matchx'],
-        not_covered=['that every block the compiler emits satisfies resolve()\'s precondition (unique, defined, forward labels) and is stack-balanced: parser contracts (not reached)',
-                     'PreResolvedByteCode::extend / FromIterator (generic IntoIterator loops)'],
         assumptions=['HashMap<u32,usize> semantics (vstd)', 'locations[&label] rewritten to *locations.get(&label).unwrap() (std defines Index that way)'],
+        not_covered=["a machine-checked lemma that the emitted templates are stack-balanced and satisfy resolve()'s precondition (unique, defined labels) is not stated: the templates themselves are pinned instruction by instruction and labels are proved to come fresh from one counter", 'PreResolvedByteCode::extend / push / FromIterator (generic IntoIterator loops): assumed', 'map literal and f-string code (dropped arms)'],
     ),
     'C06': dict(
         units=['value_coll', 'value_arith', 'interp_vm_g4', 'interp_vm_g5', 'interp_vm_g6', 'interp_vm_g7', 'wiring', 'parser_member', 'compprog'],
-        not_covered=['compile-time construction of list / map literals (parser contracts not reached); the run-time MkList / MkDict arms are under contract', 'size(): unit builtins',
-                     'list membership is stated over PartialEq for CelValue, whose own structural impl is outside this unit'],
         assumptions=['HashMap<String,_> key model (axiom), Vec<CelValue>.len() <= isize::MAX (allocation limit)'],
+        not_covered=['map literals in parse_primary (dropped arm; the VM MkDict arm and from_children_w_bytecode ARE under contract)', 'list membership is stated over PartialEq for CelValue, whose own structural impl is outside this unit'],
     ),
     'C07': dict(
         units=['macros'],
@@ -231,8 +228,8 @@ PROPS = {
     ),
     'C05': dict(
         units=['value_cmp', 'value_arith', 'interp_vm_g0', 'interp_vm_g1', 'parser', 'parser_expr', 'parser_match', 'parser_matchx'],
-        not_covered=[],
         assumptions=[],
+        not_covered=['the composition "jump template + VM arm contracts => laziness / failure absorption" is not a machine-checked lemma: the templates are pinned instruction by instruction (ternary_code, and_jump / or_jump, cases_code, any_code) and the VM arms are pinned; the argument that these templates are lazy is the doc comment on the spec functions'],
     ),
     'C03': dict(
         units=['value_arith'],
